@@ -71,3 +71,50 @@ def rename_tree(pkgdir, suffix="_r"):
                 f.write(ast.unparse(tree) + "\n")
             n += 1
     return n
+
+
+class ParamRenamer(ast.NodeTransformer):
+    """renames the parameters (except self) of operator dunders and of private functions that are never called with keywords"""
+
+    def __init__(self, suffix, skip):
+        self.suffix, self.skip = suffix, skip
+
+    def visit_FunctionDef(self, node):
+        dunder = node.name.startswith("__") and node.name.endswith("__") and node.name not in ("__init__", "__getitem__")
+        private = node.name.startswith("_") and not node.name.startswith("__") and node.name not in self.skip
+        if not (dunder or private):
+            self.generic_visit(node)
+            return node
+        a = node.args
+        m = {x.arg: x.arg + self.suffix for x in a.posonlyargs + a.args if x.arg != "self"}
+        for x in a.posonlyargs + a.args:
+            if x.arg in m:
+                x.arg = m[x.arg]
+
+        class N(ast.NodeTransformer):
+            def visit_Name(s, n):
+                return ast.copy_location(ast.Name(id=m[n.id], ctx=n.ctx), n) if n.id in m else n
+        node.body = [N().visit(b) for b in node.body]
+        return node
+
+
+def rename_params(pkgdir, suffix="_p"):
+    import warnings
+    trees = {}
+    kw_callees = set()
+    for root, _, files in os.walk(pkgdir):
+        for fn in files:
+            if fn.endswith(".py") and fn != "_torchtt.py":
+                p = os.path.join(root, fn)
+                with warnings.catch_warnings():
+                    warnings.simplefilter("ignore")
+                    trees[p] = ast.parse(open(p, encoding="utf-8").read())
+                for n in ast.walk(trees[p]):
+                    if isinstance(n, ast.Call) and any(k.arg for k in n.keywords):
+                        kw_callees.add(ast.unparse(n.func).split(".")[-1])
+    for p, t in trees.items():
+        t = ParamRenamer(suffix, kw_callees).visit(t)
+        ast.fix_missing_locations(t)
+        with open(p, "w", encoding="utf-8") as f:
+            f.write(ast.unparse(t) + "\n")
+    return len(trees)
